@@ -16,6 +16,8 @@ pub enum T {
     Anon(Vec<(String, T)>),
     /// type parameter inside a declaration
     TV(String),
+    /// the never type `!` (only as the declared return type of a diverging function in a seed)
+    Never,
 }
 
 pub const INTS: [&str; 8] = ["u8", "u16", "u32", "u64", "i8", "i16", "i32", "i64"];
@@ -60,6 +62,7 @@ impl T {
             }
             T::Anon(fs) => format!("{{ {} }}", fs.iter().map(|(n, t)| format!("{n}: {}", t.show())).collect::<Vec<_>>().join(", ")),
             T::TV(v) => v.clone(),
+            T::Never => "!".into(),
         }
     }
     pub fn subst(&self, m: &[(String, T)]) -> T {
@@ -335,7 +338,7 @@ impl World {
                 vec!["to_string", "floor", "ceil", "round", "abs", "sqrt", "pow", "is_nan", "is_infinite", "is_finite"]
             }
             T::P(_) => vec!["to_string"],
-            T::Unit | T::Anon(_) | T::TV(_) => vec![],
+            T::Unit | T::Anon(_) | T::TV(_) | T::Never => vec![],
             T::App(n, _) => match n.as_str() {
                 "List" => vec!["push", "contains", "index", "concat", "get", "swap", "len", "capacity", "is_empty", "join"],
                 "Tr" => vec!["payload"],
